@@ -164,6 +164,8 @@ def handle (op : String) (j : Json) : Except String Json := do
       ("markers", Json.arr (T.markers.map fun m => Json.arr #[jstr m.name, jstrs m.deps, Json.bool m.idFaithful, jstrs m.refs]).toArray),
       ("symbols", Json.arr (T.symbols.map fun s => Json.arr #[jstr s.name,
           (match s.producedId with | some i => jstr i | none => Json.null), jstrs s.deps, jstrs s.ids, jstrs s.refs]).toArray),
+      ("digests", Json.arr (Capella.Gen.Styles.symbolIdDigests.map fun d => Json.arr #[jstr d.1, jstr d.2.1, jstr d.2.2]).toArray),
+      ("clash", jstrs Capella.Gen.Styles.observedClashIds),
       ("sets", Json.mkObj [("all_ports", jstrs T.allPorts), ("function_ports", jstrs T.functionPorts),
         ("component_ports", jstrs T.componentPorts), ("all_directed_ports", jstrs T.allDirectedPorts),
         ("only_icons", jstrs T.onlyIcons), ("needs_feature_line", jstrs T.needsFeatureLine),
